@@ -313,7 +313,9 @@ fn body_bytes(n: usize) -> Vec<u8> {
 }
 
 pub fn judge(cfg: &Config) -> Result<(Coding, bool), (String, String)> {
-    let body = body_bytes(cfg.length.unwrap_or(cfg.actual_len));
+    // enormous declared lengths are only used with HEAD (nothing is read from the reader)
+    let huge = cfg.head && cfg.length.map_or(false, |l| l > (1 << 26));
+    let body = if huge { Vec::new() } else { body_bytes(cfg.length.unwrap_or(cfg.actual_len)) };
     let cl_header = cfg.length.map(|l| Header::from_bytes(&b"Content-Length"[..], l.to_string().as_bytes()).unwrap());
     let reader = || -> Box<dyn std::io::Read + Send> { Box::new(Cursor::new(body.clone())) };
     // the threshold is set either after the response is complete or before its last building step
@@ -402,10 +404,11 @@ pub fn judge(cfg: &Config) -> Result<(Coding, bool), (String, String)> {
             ))
         }
     };
-    if used == Coding::Identity && !cl_vals.is_empty() && cl_vals[0] != body.len().to_string() {
+    let body_length = if huge { cfg.length.unwrap_or(0) } else { body.len() };
+    if used == Coding::Identity && !cl_vals.is_empty() && cl_vals[0] != body_length.to_string() {
         return Err((
             "content-length".into(),
-            format!("Content-Length {} but the body has {} bytes", cl_vals[0], body.len()),
+            format!("Content-Length {} but the body has {} bytes", cl_vals[0], body_length),
         ));
     }
     // the coding announced is the coding used
@@ -500,7 +503,37 @@ const STATUS_SWEEP_ITEMS: u64 = 9;
 const SIZES: [usize; 11] = [0, 1024, 32768, 65537, (1 << 20) + 1, 1, 1023, 32767, 32769, 1 << 20, 3 << 20];
 
 fn size_items(tier: Tier) -> u64 {
-    if tier == Tier::Quick { 5 } else { SIZES.len() as u64 }
+    (if tier == Tier::Quick { 5 } else { SIZES.len() as u64 }) + 1
+}
+
+/// Declared lengths far beyond anything that could be sent here, answered to HEAD (nothing
+/// is read from the reader): the Content-Length printed must be the declared length, digit
+/// for digit, up to usize::MAX.
+fn run_huge_declared(tier: Tier, acc: &mut Acc) {
+    let (_, te, _) = space(tier);
+    let prefer_identity = te.iter().flatten().find(|t| t.members.as_ref().map_or(false, |m| m.len() == 1 && m[0].name.eq_ignore_ascii_case("identity") && m[0].q.is_none())).cloned();
+    let mut lengths: Vec<usize> = vec![(1 << 26) + 1, i32::MAX as usize, u32::MAX as usize - 1, u32::MAX as usize, u32::MAX as usize + 1, 1 << 53, usize::MAX / 2, usize::MAX - 1, usize::MAX];
+    // every power of ten from 10^8 to 10^19, minus one, exactly, plus one
+    let mut p: usize = 100_000_000;
+    loop {
+        lengths.extend([p - 1, p, p + 1]);
+        match p.checked_mul(10) {
+            Some(q) => p = q,
+            None => break,
+        }
+    }
+    for length in lengths {
+        for version in [(1u8, 0u8), (1, 1)] {
+            for (threshold, te) in [(None, None), (Some(usize::MAX), None), (None, prefer_identity.clone())] {
+                for build in [0usize, 1, 2, 4] {
+                    for status in [200u16, 304] {
+                        let cfg = Config { version, status, threshold, length: Some(length), head: true, upgrade: false, te: te.clone(), build, threshold_first: false, actual_len: 0 };
+                        run_cfg(&cfg, acc);
+                    }
+                }
+            }
+        }
+    }
 }
 
 /// The selection is a function of the DECLARED length: a body of undeclared length is treated
@@ -626,7 +659,12 @@ impl Check for C05 {
     fn run_item(&self, idx: u64, tier: Tier, acc: &mut Acc) {
         let n0 = space_size(tier);
         if idx >= n0 + NUMERIC_ITEMS + STATUS_SWEEP_ITEMS {
-            run_size_family(idx - n0 - NUMERIC_ITEMS - STATUS_SWEEP_ITEMS, tier, acc);
+            let k = idx - n0 - NUMERIC_ITEMS - STATUS_SWEEP_ITEMS;
+            if k + 1 == size_items(tier) {
+                run_huge_declared(tier, acc);
+            } else {
+                run_size_family(k, tier, acc);
+            }
             return;
         }
         if idx >= n0 + NUMERIC_ITEMS {
@@ -662,7 +700,7 @@ impl Check for C05 {
     fn rule(&self, tier: Tier) -> String {
         let (sp, te, tl) = space(tier);
         format!(
-            "full product version{{0.9,1.0,1.1}} x status{:?} x (threshold,length){} pairs x HEAD x upgrade x 6 ways of building the response and declaring its length (constructor argument, Content-Length header through with_header or the constructor list, boxed(), with_data, with_status_code) x the chunking threshold set after the response is complete or before its last building step x {} TE values (absent, singles in 3 letter cases, all ordered pairs{} of chunked/identity/gzip with q in {{absent,1,0.9,0.5,0.001,0}}, OWS variants, {} malformed-q robustness values) = {} configurations, plus the numeric family: EVERY pair of three-decimal weights 0.000..1.000 for chunked and identity in both listing orders (2 004 002 TE values, HTTP/1.1, status 200), the size family: bodies of 0 / 1024 / 32768 / 65537 / 1 MiB + 1 bytes (thorough: 11 sizes up to 3 MiB), declared or not (an undeclared body is selected for as 'unknown' whatever the reader yields), x every well-formed TE value x versions x statuses 200/404; and EVERY status code 100..999 x 5 (threshold, length) pairs x versions 1.0/1.1 x TE absent / chunked, each printed by Response::raw_print and compared with the reference selection function; non-trivial = version 1.1 and status not 1xx/204 (selection not forced)",
+            "full product version{{0.9,1.0,1.1}} x status{:?} x (threshold,length){} pairs x HEAD x upgrade x 6 ways of building the response and declaring its length (constructor argument, Content-Length header through with_header or the constructor list, boxed(), with_data, with_status_code) x the chunking threshold set after the response is complete or before its last building step x {} TE values (absent, singles in 3 letter cases, all ordered pairs{} of chunked/identity/gzip with q in {{absent,1,0.9,0.5,0.001,0}}, OWS variants, {} malformed-q robustness values) = {} configurations, plus the numeric family: EVERY pair of three-decimal weights 0.000..1.000 for chunked and identity in both listing orders (2 004 002 TE values, HTTP/1.1, status 200), the size family: bodies of 0 / 1024 / 32768 / 65537 / 1 MiB + 1 bytes (thorough: 11 sizes up to 3 MiB), declared or not (an undeclared body is selected for as 'unknown' whatever the reader yields), x every well-formed TE value x versions x statuses 200/404; declared lengths from 2^26 + 1 to usize::MAX (2^31, 2^32, 2^53 and every power of ten 10^8 .. 10^19, each minus one / exactly / plus one) answered to HEAD, x versions x (default, threshold usize::MAX, TE identity) x four ways of declaring x statuses 200/304: the Content-Length printed is the declared length digit for digit; and EVERY status code 100..999 x 5 (threshold, length) pairs x versions 1.0/1.1 x TE absent / chunked, each printed by Response::raw_print and compared with the reference selection function; non-trivial = version 1.1 and status not 1xx/204 (selection not forced)",
             STATUSES, tl.len(), te.len(),
             if tier == Tier::Thorough { " and triples" } else { "" },
             te.iter().filter(|t| t.as_ref().map_or(false, |t| t.members.is_none())).count(),
